@@ -110,7 +110,7 @@ def run_c03(prop, cfg, tier, seed):
 
 def run_c13(prop, cfg, tier, seed):
     return generic(prop, cfg, tier, seed,
-                   [("pvtool", 700, 12000, [], {"norecoverpanic": "F4", "optthrow": "D13"})])
+                   [("pvtool", 700, 12000, ["-lift", "optthrow"], {"norecoverpanic": "F4"})])
 
 
 def run_c04(prop, cfg, tier, seed):
